@@ -1163,7 +1163,8 @@ class LogixDriver(CIPDriver):
                 request.build_message()
 
                 req_size = len(request.message)
-                if req_size > self.connection_size:
+                # a request must fit a multi-service packet on its own
+                if req_size + MULTISERVICE_READ_OVERHEAD > self.connection_size:
                     request = WriteTagFragmentedRequestPacket.from_request(self._sequence, request)
                     fragmented_requests.append(request)
                 else:
